@@ -54,6 +54,13 @@ fn gen_jobs() -> BTreeMap<u64, Vec<JobSrc>> {
     // failing jobs: draw names, then fail
     m.entry(3).or_default().push(JobSrc { key: "fail23".into(), text: "(mod (X) (include *standard-cl-23*) (defun f (A) (let ((Q (+ A 1))) (+ Q ZZZ))) (f X))".into(), file: "*verif*".into(), search: vec![] });
     m.entry(3).or_default().push(JobSrc { key: "fail231".into(), text: "(mod (X) (include *standard-cl-23.1*) (defun-inline r1 (A) (r2 A)) (defun-inline r2 (A) (r1 A)) (let ((Q 1)) (r1 (+ Q X))))".into(), file: "*verif*".into(), search: vec![] });
+    // programs whose compilation folds a call with constant arguments (a nested compilation inside the optimiser), and
+    // programs that fail inside exactly that nested compilation: state set up for it must not survive the failure
+    for sigil in ["*standard-cl-23*", "*standard-cl-23.1*", "*standard-cl-24*"] {
+        m.entry(2).or_default().push(JobSrc { key: format!("fold:{sigil}"), text: format!("(mod (X) (include {sigil}) (defun g (A) (* A 2)) (defun h (B) (+ B (g 5))) (+ X (g 3) (h 1)))"), file: "*verif*".into(), search: vec![] });
+        m.entry(3).or_default().push(JobSrc { key: format!("failfold:{sigil}"), text: format!("(mod (X) (include {sigil}) (defun f (A) (nosuch A 2)) (+ X (f 3)))"), file: "*verif*".into(), search: vec![] });
+        m.entry(3).or_default().push(JobSrc { key: format!("failfold2:{sigil}"), text: format!("(mod (X) (include {sigil}) (defun f (A) (x A)) (defun k (B) (f 1)) (+ X (k 3)))"), file: "*verif*".into(), search: vec![] });
+    }
     m.entry(5).or_default().push(JobSrc { key: "fail21".into(), text: "(mod (X) (include *standard-cl-21*) (defun f (A) (let ((Q (+ A 1))) (nosuchfunction Q))) (f X))".into(), file: "*verif*".into(), search: vec![] });
     m.entry(5).or_default().push(JobSrc { key: "fail21syntax".into(), text: "(mod (X) (include *standard-cl-21*) (defun f (A) (let ((Q (+ A 1))) Q)) (f X)".into(), file: "*verif*".into(), search: vec![] });
     m
@@ -266,6 +273,17 @@ pub fn drive(args: &HashMap<String, String>) {
             events.push(json!(["end", t, k]));
         }
         hists.push(json!({"c0": c0, "m0": m0, "events": events, "main_thread": i % 5 == 0, "source": "boundary"}));
+    }
+    // 2b. every failing job directly before every constant-folding job on the same thread (error paths must restore
+    //     whatever state the failed compilation set up), on the main thread and on a spawned one
+    {
+        let folds: Vec<&JobSrc> = all_jobs.iter().filter(|j| j.key.starts_with("fold:")).cloned().collect();
+        for (fi, f) in fails.iter().enumerate() {
+            for (gi, g) in folds.iter().enumerate() {
+                let events = json!([["begin", 1, job_json(f)], ["end", 1, f.key], ["begin", 1, job_json(g)], ["end", 1, g.key]]);
+                hists.push(json!({"c0": 8, "m0": true, "events": events, "main_thread": (fi + gi) % 2 == 0, "source": "fail-then-fold"}));
+            }
+        }
     }
     // 3. generated programs (C01 generator, half of them rich in repeated subexpressions so that the cl23+ CSE pass has
     //    several candidates per function): each alone in a fresh process under every boundary counter
